@@ -134,10 +134,11 @@ class Unit:
         for _ in range(max_findings):
             if abstract:
                 # fast path: UF applications as opaque constants (sound for unsat)
-                r, m, _s = self.solve(symx.abstract_ufs(hyps + ax + extra + [neg]),
-                                      timeout_ms=min(self.timeout_ms, 20000))
+                aq = symx.abstract_ufs(hyps + ax + extra + [neg])
+                r, m, _s = self.solve(aq, timeout_ms=min(self.timeout_ms, 20000))
                 if r == "unsat":
                     self.r["discharged"] += 1
+                    self.cross_check(name, aq)
                     return True
             r, m, _s = self.solve(hyps + ax + extra + [neg])
             if r == "unsat":
@@ -174,6 +175,37 @@ class Unit:
             return False
         self.error("obligation %s: more than %d distinct findings" % (name, max_findings))
         return False
+
+    def cross_check(self, name, constraints):
+        """Thorough tier: re-decide a sample of discharged (UF-free) queries with
+        cvc5; a disagreement (cvc5 says sat) is a harness error, cvc5 timeouts or
+        unknowns are only counted."""
+        if os.environ.get("VERIF_TIER_EFFECTIVE") != "thorough" or self.r.get("cvc5_checked", 0) >= 2:
+            return
+        import subprocess
+        import tempfile
+        self.r["cvc5_checked"] = self.r.get("cvc5_checked", 0) + 1
+        s = z3.Solver()
+        s.add(*constraints)
+        text = "(set-logic ALL)\n" + s.to_smt2()
+        try:
+            with tempfile.NamedTemporaryFile("w", suffix=".smt2", delete=False) as f:
+                f.write(text)
+                path = f.name
+            out = subprocess.run(["cvc5", "--lang=smt2", "--tlimit=15000", path], capture_output=True,
+                                 text=True, timeout=30).stdout.strip().splitlines()
+            ans = out[0] if out else "error"
+        except Exception as e:      # noqa
+            ans = "error"
+        finally:
+            try:
+                os.unlink(path)
+            except Exception:
+                pass
+        key = "cvc5_" + (ans if ans in ("unsat", "sat", "unknown") else "no_answer")
+        self.r[key] = self.r.get(key, 0) + 1
+        if ans == "sat":
+            self.error("cvc5 disagrees with z3 on discharged obligation %s (z3 unsat, cvc5 sat)" % name)
 
     def reachable(self, name, hyps):
         """Vacuity guard: the hypotheses of a harness must be satisfiable (the
@@ -339,6 +371,8 @@ class Check:
             "not_encoded": sorted({x for u in self.units for x in u["not_encoded"]}),
             "notes": [n for u in self.units for n in u["notes"]][:40],
             "harness_errors": ["%s: %s" % e for e in errors][:20],
+            "cvc5_cross_check": {k: sum(u.get(k, 0) for u in self.units) for k in
+                                 ("cvc5_checked", "cvc5_unsat", "cvc5_sat", "cvc5_unknown", "cvc5_no_answer")},
             "slowest_units_s": [[u["unit"], round(u.get("wall_s", 0), 1)] for u in
                                 sorted(self.units, key=lambda u: -u.get("wall_s", 0))[:8]],
             "obligations_skipped_after_violation": sum(u.get("skipped_after_violation", 0) for u in self.units),
